@@ -242,6 +242,25 @@ impl<'ast> Visit<'ast> for LoopFinder {
         }
         syn::visit::visit_expr_binary(self, e);
     }
+    fn visit_expr_if(&mut self, e: &'ast syn::ExprIf) {
+        // D36: if let [P0, P1, ..] = S { ... }  with only identifiers / wildcards and no rest pattern
+        if let syn::Expr::Let(l) = &*e.cond {
+            if let syn::Pat::Slice(ps) = &*l.pat {
+                let simple = ps.elems.iter().all(|p| matches!(p, syn::Pat::Ident(pi) if pi.by_ref.is_none() && pi.mutability.is_none() && pi.subpat.is_none()) || matches!(p, syn::Pat::Wild(_)));
+                if simple {
+                    let start = e.if_token.span().byte_range().start;
+                    let open = e.then_branch.brace_token.span.open().byte_range();
+                    let ex = l.expr.span().byte_range();
+                    let names: Vec<String> = ps.elems.iter().map(|p| match p { syn::Pat::Ident(pi) => format!("\"{}\"", pi.ident), _ => "null".to_string() }).collect();
+                    self.vd.push(format!(
+                        "{{\"rule\":\"D36\",\"call\":[{},{}],\"expr\":[{},{}],\"names\":[{}]}}",
+                        start, open.start + 1, ex.start, ex.end, names.join(",")
+                    ));
+                }
+            }
+        }
+        syn::visit::visit_expr_if(self, e);
+    }
     fn visit_expr_closure(&mut self, e: &'ast syn::ExprClosure) {
         self.closures += 1;
         syn::visit::visit_expr_closure(self, e);
